@@ -41,3 +41,18 @@ Lemma src_varint_size n : src_VarInt_size n = vi_size n.
 Proof. unfold src_VarInt_size, vi_size.
   destruct (N.ltb_spec n 0xFD), (N.ltb_spec n 0x10000), (N.ltb_spec n 0x100000000);
     repeat match goal with |- context [N.leb ?a ?b] => destruct (N.leb_spec a b) end; cbn [andb]; try reflexivity; lia. Qed.
+
+(* ---- the generated no-panic conditions of these functions are all true (none of them indexes or subtracts) *)
+Lemma src_preds_safe : forall (v : cvalue) (a : casset) (n : cnonce) (i : issuance) (iw : inwit) (ow : outwit) (ti : txin) (t : tx) (k : N),
+  src_Value_is_null_safe v = true /\ src_Value_is_explicit_safe v = true /\ src_Value_is_confidential_safe v = true /\ src_Value_encoded_length_safe v = true
+  /\ src_Asset_is_null_safe a = true /\ src_Asset_is_explicit_safe a = true /\ src_Asset_is_confidential_safe a = true /\ src_Asset_encoded_length_safe a = true
+  /\ src_Nonce_is_null_safe n = true /\ src_Nonce_is_explicit_safe n = true /\ src_Nonce_is_confidential_safe n = true /\ src_Nonce_encoded_length_safe n = true
+  /\ src_AssetIssuance_is_null_safe i = true /\ src_TxInWitness_is_empty_safe iw = true /\ src_TxOutWitness_is_empty_safe ow = true
+  /\ src_TxOutWitness_rangeproof_len_safe ow = true /\ src_TxOutWitness_surjectionproof_len_safe ow = true /\ src_TxIn_has_issuance_safe ti = true
+  /\ src_Transaction_has_witness_safe t = true /\ src_VarInt_size_safe k = true.
+Proof.
+  assert (FT : forall A (f : A -> bool) l, (forall x, f x = true) -> forallb f l = true) by (intros A f l H; apply forallb_forall; intros x _; apply H).
+  intros. repeat split; try reflexivity;
+    try (unfold src_TxIn_has_issuance_safe, src_AssetIssuance_is_null_safe; match goal with |- context [if ?c then _ else _] => destruct c end; reflexivity).
+  unfold src_Transaction_has_witness_safe. rewrite !FT by reflexivity. destruct (existsb _ _); reflexivity.
+Qed.
